@@ -54,6 +54,8 @@ for _k in F.NINE + ["dh_params", "dsa_priv", "cert"]:
 SCENARIOS += [("generate", "aes"), ("generate", "generic"), ("generate-pair", "ec"), ("generate-pair", "rsa"), ("unwrap", "aes"), ("unwrap", "ec-private"),
               ("unwrap", "rsa-private"), ("derive", "ecdh"), ("derive", "aes-ecb-encrypt-data"), ("derive", "concat"), ("copy-upgrade", "aes128"),
               ("copy-upgrade", "data"), ("copy-upgrade", "cert"), ("set", "aes128"), ("set", "data"), ("set", "rsa1024_priv"), ("set", "cert")]
+# paths of more than one hop, and byte-string attributes a caller rarely supplies (a correct CKA_CHECK_VALUE is verified and then stored)
+SCENARIOS += [("copy-upgrade-two-hop", "aes128"), ("copy-upgrade-two-hop", "data"), ("create-with-check-value", "aes128"), ("set-check-value", "aes128")]
 HISTORIES = ["none", "restart", "setpin-user", "setpin-so", "initpin", "reinit-recreate"]
 
 
@@ -147,6 +149,31 @@ def run_store(ctx, p, s, path, what, expected_public):
         remember(h, ST)
         remember(h, T)
         W.ok(p.DestroyObject(s, src), "destroy src")   # the public source held the same values in clear
+    elif path == "copy-upgrade-two-hop":
+        # public object -> private SESSION copy -> TOKEN copy of that: what reaches the disk went through two copies
+        ST = F.template(what, token=False, private=False, label=marker(b"src"), extra=extras_for(what))
+        src = W.ok(p.CreateObject(s, ST), "src")["h"]
+        T = [(C.CKA_PRIVATE, True), (C.CKA_LABEL, marker(b"cpy"))]
+        mid = W.ok(p.CopyObject(s, src, T), "copy 1")["h"]
+        T2 = [(C.CKA_TOKEN, True)] + ([(C.CKA_ID, marker(b"cid"))] if F.klass(what) != C.CKO_DATA else [])
+        h = W.ok(p.CopyObject(s, mid, T2), "copy 2")["h"]
+        hs.append(h)
+        remember(h, ST)
+        remember(h, T)
+        remember(h, T2)
+        p.DestroyObject(s, mid)
+        p.DestroyObject(s, src)
+    elif path in ("create-with-check-value", "set-check-value"):
+        key = bytes(range(0x40, 0x50))
+        kcv = ctx.ref_kcv(key)
+        CT = [x for x in F.template(what, token=True, private=True, label=marker(b"lab"), plain=True) if x[0] != C.CKA_VALUE] + [(C.CKA_VALUE, key)]
+        if path == "create-with-check-value":
+            CT.append((C.CKA_CHECK_VALUE, kcv))
+        h = W.ok(p.CreateObject(s, CT), "create")["h"]
+        if path == "set-check-value":
+            W.ok(p.SetAttributeValue(s, h, [(C.CKA_CHECK_VALUE, kcv)]), "set check value")
+        hs.append(h)
+        remember(h, CT)
     elif path == "set":
         CT = F.template(what, token=True, private=True, label=marker(b"lab"))
         h = W.ok(p.CreateObject(s, CT), "create")["h"]
@@ -258,6 +285,12 @@ def examine(ctx, ref, root, umask, so_pin, user_pin, expected, sig_base, stored=
             decoded.append((f, dec))
         if len(set(ivs)) != len(ivs):
             viol.append(("%s|iv-reused" % sig_base, {"ivs": len(ivs), "distinct": len(set(ivs))}))
+        # every non-empty byte-string attribute of a private object is a ciphertext under the master key - also those nobody asked about
+        # (mechanism lists are not secret and are kept in clear; the SQLite store keeps them among the binary attributes)
+        for f, dec in decoded:
+            for t, pt in dec.items():
+                if isinstance(pt, tuple) and pt[0] == "undecryptable" and t != C.CKA_ALLOWED_MECHANISMS:
+                    viol.append(("%s|private-object-holds-byte-string-that-is-not-a-ciphertext|%s" % (sig_base, C.CKA_NAMES.get(t, hex(t))), {"file": f, "stored_bytes": len(pt[1])}))
         # (b) every expected private object is found with exactly the API's values
         for exp in expected:
             match = None
@@ -312,6 +345,7 @@ def _task(task):
             so_pin, user_pin = W.SO_A, W.USER_A
             s = W.ok(p.OpenSession(slot), "open")["h"]
             W.ok(p.Login(s, C.CKU_USER, user_pin), "login")
+            ctx.ref_kcv = lambda key: ref.out("BLOCK", alg="AES-%d" % (len(key) * 8), key=key, **{"in": bytes(16)})[:3]
             hs = run_store(ctx, p, s, path, what, None)
             expected = [api_values(p, s, h, ctx.stored.get(h)) for h in hs]
             stored_now = [dict(ctx.stored.get(h, {})) for h in hs]
@@ -347,6 +381,7 @@ def _task(task):
                 p.Logout(s)
                 user_pin = NEW_USER
                 W.ok(p.Login(s, C.CKU_USER, user_pin), "login")
+                ctx.ref_kcv = lambda key: ref.out("BLOCK", alg="AES-%d" % (len(key) * 8), key=key, **{"in": bytes(16)})[:3]
                 hs = run_store(ctx, p, s, path, what, None)
                 expected = [api_values(p, s, h, ctx.stored.get(h)) for h in hs]
                 stored_now = [dict(ctx.stored.get(h, {})) for h in hs]
